@@ -242,8 +242,8 @@ Section Lz5Total.
         let '(bs, c') := cb c 2 in
         match bs with
         | [] => Ok (s, o, c')
-        | c0 :: rest =>
-          let c1 := match rest with [] => junk | x :: _ => x end in
+        | [_] => Ok (s, o, c')
+        | c0 :: c1 :: _ =>
           let seqstart := N.lor (N.shiftl (N.land c1 240) 4) c0 in
           let seqlen := N.land c1 15 + lz5_THRESHOLD in
           '(s', o') <- lz5_output_block (N.to_nat seqlen) s o seqstart 0 ;;
@@ -271,8 +271,9 @@ Section Lz5Total.
         split; [exact Hl'|]. rewrite He. cbn [ob_put ob_rev]. rewrite <- app_assoc. reflexivity.
       + destruct (cb c 2) as [bs c']. destruct bs as [|c0 rest].
         { exists s, o, c', []. repeat split; try assumption; try apply Hi. lia. }
+        destruct rest as [|c1 rest'].
+        { exists s, o, c', []. repeat split; try assumption; try apply Hi. lia. }
         cbv zeta.
-        set (c1 := match rest with [] => junk | x :: _ => x end).
         pose proof (land_15_le c1) as H15.
         destruct (output_block_spec (N.to_nat (N.land c1 15 + lz5_THRESHOLD)) s o
                     (N.lor (N.shiftl (N.land c1 240) 4) c0) 0 Hi Hw)
@@ -496,7 +497,7 @@ Section Lz5Cmds.
         apply andb_true_iff in Hc. destruct Hc as [Hc H18].
         apply andb_true_iff in Hc. destruct Hc as [Hpos H3].
         apply N.ltb_lt in Hpos. apply N.leb_le in H3. apply N.leb_le in H18.
-        rewrite src_cb_2. cbv zeta.
+        rewrite src_cb_2. cbv beta iota zeta.
         destruct (copy_decode pos len Hpos H3 H18) as [Estart Elen].
         rewrite Estart, Elen.
         destruct (output_block_spec (N.to_nat len) s o pos 0 Hi Hw) as (s1 & o1 & E1 & Hi1 & Hw1 & Hl1 & Hc1).
